@@ -167,3 +167,219 @@ Section Lists.
     rewrite firstn_add, skipn_add. reflexivity.
   Qed.
 End Lists.
+
+(* ------------------------------------------------------------------ token streams (every carrier) *)
+Section Tok.
+  Context {T : Type} (O : NumOps T).
+  Notation tk := (tok T).
+  Notation d := (n0 O).
+
+  Definition grid_wf (g : grid T) : Prop :=
+    (0 < gr_mult g)%Z /\ all_pos (gr_nx g) /\ gr_nx g <> [] /\
+    length (gr_data g) = Z.to_nat (ntot (gr_mult g) (gr_nx g)).
+
+  Lemma wf_data_length g : grid_wf g -> length (gr_data g) = npoints (gr_nx g) * gmult g.
+  Proof.
+    intros (Hm & Hp & _ & Hl). rewrite Hl, ntot_scale. unfold npoints, gmult.
+    pose proof (strides_nt_pos 1 (gr_nx g) ltac:(lia) Hp). rewrite Z2Nat.inj_mul by lia. lia.
+  Qed.
+
+  Lemma strip_app (a b : list tk) : strip (a ++ b) = strip a ++ strip b.
+  Proof. unfold strip. apply filter_app. Qed.
+  Lemma strip_nums (xs : list T) : strip (map TNum xs) = map TNum xs.
+  Proof. induction xs as [|x xs IH]; cbn; [reflexivity|]. f_equal. exact IH. Qed.
+  Lemma strip_ints (xs : list Z) : strip (map (@TInt T) xs) = map TInt xs.
+  Proof. induction xs as [|x xs IH]; cbn; [reflexivity|]. f_equal. exact IH. Qed.
+  Lemma strip_flat_map {B} (f : B -> list tk) (l : list B) : strip (flat_map f l) = flat_map (fun x => strip (f x)) l.
+  Proof. induction l as [|x l IH]; cbn [flat_map]; [reflexivity|]. rewrite strip_app, IH. reflexivity. Qed.
+  Lemma strip_idem (l : list tk) : strip (strip l) = strip l.
+  Proof.
+    induction l as [|t l IH]; [reflexivity|]. unfold strip in *. cbn [filter].
+    destruct (negb (is_nl t)) eqn:E; cbn [filter]; [rewrite E; f_equal|]; exact IH.
+  Qed.
+
+  Lemma strip_wrap_lines buf c (vs : list T) : strip (wrap_lines buf c vs) = map TNum vs.
+  Proof.
+    revert c; induction vs as [|v vs IH]; intros c; cbn [wrap_lines map].
+    - destruct (Nat.eqb _ 0); reflexivity.
+    - change (TNum v :: ?l) with ([TNum v] ++ l). rewrite !strip_app, IH.
+      destruct (Nat.eqb _ 0); reflexivity.
+  Qed.
+
+  Lemma map_flat_map {B C D} (f : C -> D) (g : B -> list C) (l : list B) :
+    map f (flat_map g l) = flat_map (fun x => map f (g x)) l.
+  Proof. induction l as [|x l IH]; cbn [flat_map map]; [reflexivity|]. rewrite map_app, IH. reflexivity. Qed.
+  Lemma flat_map_map' {B C D} (f : C -> list D) (g : B -> C) (l : list B) :
+    flat_map f (map g l) = flat_map (fun x => f (g x)) l.
+  Proof. induction l as [|x l IH]; cbn [flat_map map]; [reflexivity|]. rewrite IH. reflexivity. Qed.
+
+  (* ---- reading numbers *)
+  Lemma take_nums_app (xs : list T) r : take_nums O (length xs) (map TNum xs ++ r) = Some (xs, r).
+  Proof. induction xs as [|x xs IH]; cbn; [reflexivity|]. rewrite IH. reflexivity. Qed.
+  Lemma take_ints_app (xs : list Z) (r : list tk) : take_ints (length xs) (map TInt xs ++ r) = Some (xs, r).
+  Proof. induction xs as [|x xs IH]; cbn; [reflexivity|]. rewrite IH. reflexivity. Qed.
+
+  Fixpoint lead (s : list tk) : nat :=
+    match s with [] => 0 | t :: r => match tok_num O t with Some _ => S (lead r) | None => 0 end end.
+
+  Lemma take_nums_lead n s xs r : take_nums O n s = Some (xs, r) ->
+    length xs = n /\ n <= lead s /\ lead r = lead s - n /\ length s = n + length r.
+  Proof.
+    revert s xs r; induction n as [|n IH]; intros s xs r H; cbn in H.
+    - injection H as <- <-. cbn. lia.
+    - destruct s as [|t s]; [discriminate|]. destruct (tok_num O t) eqn:E; [|discriminate].
+      destruct (take_nums O n s) as [[ys r']|] eqn:E2; [|discriminate].
+      injection H as <- <-. destruct (IH _ _ _ E2) as (H1 & H2 & H3 & H4).
+      cbn [lead length]. rewrite E. lia.
+  Qed.
+
+  Lemma lead_nums (vs : list T) (r : list tk) : lead r = 0 -> lead (map TNum vs ++ r) = length vs.
+  Proof. intros H. induction vs as [|v vs IH]; cbn [map app lead tok_num length]; auto. Qed.
+
+  (* ---- entering values *)
+  Lemma set_values_len add (vs : list T) : forall data a, length (set_values O add data a vs) = length data.
+  Proof. induction vs as [|v vs IH]; intros data a; cbn [set_values]; auto. rewrite IH. apply upd_len. Qed.
+
+  Lemma set_values_nth add (vs : list T) : forall data a j, a + length vs <= length data ->
+    nth j (set_values O add data a vs) d =
+    if (a <=? j) && (j <? a + length vs) then comb O add (nth j data d) (nth (j - a) vs d) else nth j data d.
+  Proof.
+    induction vs as [|v vs IH]; intros data a j H; cbn [set_values length] in *.
+    - destruct (Nat.leb_spec a j), (Nat.ltb_spec j (a + 0)); cbn; auto; lia.
+    - rewrite IH by (rewrite upd_len; lia).
+      destruct (Nat.eq_dec j a) as [->|Hne].
+      + replace ((S a <=? a) && (a <? S a + length vs)) with false
+          by (symmetry; apply andb_false_iff; left; apply Nat.leb_gt; lia).
+        replace ((a <=? a) && (a <? a + S (length vs))) with true
+          by (symmetry; apply andb_true_iff; split; [apply Nat.leb_le|apply Nat.ltb_lt]; lia).
+        rewrite upd_same by lia. rewrite Nat.sub_diag. reflexivity.
+      + rewrite upd_other by lia.
+        replace (j <? a + S (length vs)) with (j <? S a + length vs) by (f_equal; lia).
+        destruct (Nat.leb_spec (S a) j), (Nat.leb_spec a j); cbn [andb]; try lia; auto.
+        destruct (Nat.ltb_spec j (S a + length vs)); auto.
+        replace (j - a) with (S (j - S a)) by lia. reflexivity.
+  Qed.
+
+  (* ---- the reading loop over the points, on a stream that contains, per point, [skip] numbers
+     and the mult values of [src] at the point's address *)
+  Lemma read_points_ok skip m add mz nx (src data0 : list T) (xs_of : list Z -> list T) :
+    forall ixs a data rest,
+    map (fun ix => Z.to_nat (address mz nx ix)) ixs = arange a m (length ixs) ->
+    length data = length src -> length data0 = length src -> a + length ixs * m <= length src ->
+    (forall ix, In ix ixs -> length (xs_of ix) = skip) ->
+    (forall j, j < a -> nth j data d = comb O add (nth j data0 d) (nth j src d)) ->
+    (forall j, a <= j -> nth j data d = nth j data0 d) ->
+    exists data',
+      read_points O skip m add mz nx ixs
+        (flat_map (fun ix => map TNum (xs_of ix) ++ map TNum (slice src (Z.to_nat (address mz nx ix)) m)) ixs ++ rest)
+        data = Some (data', rest)
+      /\ length data' = length src
+      /\ (forall j, j < a + length ixs * m -> nth j data' d = comb O add (nth j data0 d) (nth j src d))
+      /\ (forall j, a + length ixs * m <= j -> nth j data' d = nth j data0 d).
+  Proof.
+    induction ixs as [|ix r IH]; intros a data rest Hmap Hl Hl0 Hb Hxs Hlo Hhi.
+    - exists data. cbn. repeat split; auto; intros j Hj; [apply Hlo | apply Hhi]; lia.
+    - cbn [map length arange] in Hmap. injection Hmap as Ha Hmap.
+      cbn [flat_map read_points length] in *. rewrite Ha.
+      rewrite <- !app_assoc.
+      assert (Ht1 : forall tl, take_nums O skip (map TNum (xs_of ix) ++ tl) = Some (xs_of ix, tl)).
+      { intros tl. rewrite <- (Hxs ix (or_introl eq_refl)). apply take_nums_app. }
+      assert (Hsl : length (slice src a m) = m) by (apply slice_length; lia).
+      assert (Ht2 : forall tl, take_nums O m (map TNum (slice src a m) ++ tl) = Some (slice src a m, tl)).
+      { intros tl. rewrite <- Hsl at 1. apply take_nums_app. }
+      rewrite Ht1, Ht2.
+      set (data1 := set_values O add data a (slice src a m)).
+      assert (G1 : length data1 = length src) by (unfold data1; rewrite set_values_len; exact Hl).
+      assert (G2 : forall ix0, In ix0 r -> length (xs_of ix0) = skip) by (intros ix0 Hin; apply Hxs; right; exact Hin).
+      assert (G3 : forall j, j < a + m -> nth j data1 d = comb O add (nth j data0 d) (nth j src d)).
+      { intros j Hj. unfold data1. rewrite set_values_nth by (rewrite Hsl; lia). rewrite Hsl.
+        destruct (Nat.leb_spec a j), (Nat.ltb_spec j (a + m)); cbn [andb]; try lia.
+        - rewrite slice_nth by lia. rewrite Hhi by lia. f_equal. f_equal. lia.
+        - apply Hlo; lia. }
+      assert (G4 : forall j, a + m <= j -> nth j data1 d = nth j data0 d).
+      { intros j Hj. unfold data1. rewrite set_values_nth by (rewrite Hsl; lia). rewrite Hsl.
+        destruct (Nat.leb_spec a j), (Nat.ltb_spec j (a + m)); cbn [andb]; try lia. apply Hhi; lia. }
+      destruct (IH (a + m) data1 rest Hmap G1 Hl0 ltac:(lia) G2 G3 G4) as (data' & H1 & H2 & H3 & H4).
+      exists data'. repeat split; auto.
+      + intros j Hj. apply H3. lia.
+      + intros j Hj. apply H4. lia.
+  Qed.
+
+  (* a successful read consumed, per point, skip + mult numbers *)
+  Lemma read_points_lead skip m add mz nx : forall ixs s data data' r,
+    read_points O skip m add mz nx ixs s data = Some (data', r) ->
+    length ixs * (skip + m) <= lead s /\ length s = length ixs * (skip + m) + length r.
+  Proof.
+    induction ixs as [|ix ixs IH]; intros s data data' r H; cbn [read_points length] in *.
+    - injection H as <- <-. lia.
+    - destruct (take_nums O skip s) as [[xs s1]|] eqn:E1; [|discriminate].
+      destruct (take_nums O m s1) as [[vs s2]|] eqn:E2; [|discriminate].
+      apply take_nums_lead in E1. apply take_nums_lead in E2. apply IH in H. lia.
+  Qed.
+
+  (* ---- raw form *)
+  Lemma raw_values_data g : grid_wf g -> raw_values g = gr_data g.
+  Proof.
+    intros Hwf. pose proof (wf_data_length g Hwf) as Hl. destruct Hwf as (Hm & Hp & Hne & _).
+    unfold raw_values, point_values, gaddr.
+    rewrite <- (flat_map_map' (fun k => slice (gr_data g) k (gmult g)) (fun ix => Z.to_nat (address (gr_mult g) (gr_nx g) ix))).
+    rewrite all_addresses by auto. fold (gmult g). rewrite slices_concat.
+    unfold slice. cbn [skipn]. apply firstn_all2. lia.
+  Qed.
+
+  Lemma strip_write_raw buf g : grid_wf g -> strip (write_raw buf g) = map TNum (gr_data g).
+  Proof. intros H. unfold write_raw. rewrite strip_wrap_lines, raw_values_data; auto. Qed.
+
+  Definition same_shape (g0 g : grid T) : Prop := gr_mult g0 = gr_mult g /\ gr_nx g0 = gr_nx g.
+
+  Lemma nums_as_points g : grid_wf g ->
+    map TNum (gr_data g) =
+    flat_map (fun ix => map TNum (@nil T) ++ map TNum (slice (gr_data g) (Z.to_nat (address (gr_mult g) (gr_nx g) ix)) (gmult g)))
+             (all_indices (gr_nx g)).
+  Proof.
+    intros H. rewrite <- (raw_values_data g H) at 1. unfold raw_values. rewrite map_flat_map. reflexivity.
+  Qed.
+
+  Lemma read_raw_s_roundtrip g g0 rest : grid_wf g -> grid_wf g0 -> same_shape g0 g ->
+    read_raw_s O g0 (map TNum (gr_data g) ++ rest) = Some (set_data g0 (gr_data g), rest).
+  Proof.
+    intros Hwf Hwf0 [Hsm Hsn]. unfold read_raw_s.
+    pose proof (wf_data_length g Hwf) as Hl. pose proof (wf_data_length g0 Hwf0) as Hl0.
+    rewrite (nums_as_points g Hwf).
+    destruct Hwf as (Hm & Hp & Hne & _).
+    unfold gmult in *. rewrite Hsm, Hsn in *.
+    assert (Hlen : length (all_indices (gr_nx g)) = npoints (gr_nx g)) by (apply all_indices_length; auto).
+    assert (A1 : map (fun ix => Z.to_nat (address (gr_mult g) (gr_nx g) ix)) (all_indices (gr_nx g))
+                 = arange 0 (Z.to_nat (gr_mult g)) (length (all_indices (gr_nx g)))).
+    { rewrite Hlen. apply all_addresses; auto. }
+    assert (A2 : 0 + length (all_indices (gr_nx g)) * Z.to_nat (gr_mult g) <= length (gr_data g)) by (rewrite Hlen; lia).
+    assert (A3 : forall j, j < 0 -> nth j (gr_data g0) d = comb O false (nth j (gr_data g0) d) (nth j (gr_data g) d))
+      by (intros j Hj; lia).
+    destruct (read_points_ok 0 (Z.to_nat (gr_mult g)) false (gr_mult g) (gr_nx g) (gr_data g) (gr_data g0) (fun _ => [])
+                (all_indices (gr_nx g)) 0 (gr_data g0) rest A1 ltac:(lia) ltac:(lia) A2 ltac:(intros; reflexivity) A3
+                ltac:(intros; reflexivity)) as (data' & H1 & H2 & H3 & _).
+    rewrite H1. f_equal. f_equal. f_equal.
+    apply (nth_eq_lists data' (gr_data g) d); auto.
+    intros j Hj. rewrite H3; [reflexivity|]. rewrite Hlen. lia.
+  Qed.
+
+  (* read_raw (write_raw g) = g : the values come back in the same elements, for every shape,
+     multiplicity and line length *)
+  Lemma raw_roundtrip buf g g0 rest : grid_wf g -> grid_wf g0 -> same_shape g0 g ->
+    read_raw O g0 (write_raw buf g ++ rest) = Some (set_data g0 (gr_data g), strip rest).
+  Proof.
+    intros Hwf Hwf0 Hs. unfold read_raw. rewrite strip_app, strip_write_raw by auto.
+    apply read_raw_s_roundtrip; auto.
+  Qed.
+
+  (* fewer numbers than grid elements: rejected, never a partially filled grid *)
+  Lemma raw_short_rejected g toks : grid_wf g ->
+    lead (strip toks) < length (gr_data g) -> read_raw O g toks = None.
+  Proof.
+    intros Hwf Hlt. unfold read_raw, read_raw_s.
+    destruct (read_points O 0 (gmult g) false (gr_mult g) (gr_nx g) (all_indices (gr_nx g)) (strip toks) (gr_data g))
+      as [[d' r]|] eqn:E; [|reflexivity].
+    apply read_points_lead in E. rewrite (wf_data_length g Hwf) in Hlt.
+    destruct Hwf as (_ & Hp & Hne & _). rewrite all_indices_length in E by auto. cbn in E. lia.
+  Qed.
+End Tok.
